@@ -89,6 +89,9 @@ def step (_ : Unit) (ws : List String) : Unit × String :=
     | some hint, some b =>
       ((), showOut (hintAttempt decAll b hint) fun r => match r with | some _ => "reach" | none => "none")
     | _, _ => bad
+  | ["windowplan", len] => match len.toNat? with
+    | some n => ((), "ok " ++ showNats (windowPlan n))
+    | none => bad
   | ["window", h] => match ofHex h with
     | some b =>
       ((), showOut (locateWindow H b) fun r => match r with
